@@ -61,6 +61,37 @@ def loop_programs(rng, n):
     return out
 
 
+MODULES = {"m1": "x := 1\nx\n", "m2": "func f(a) { return a + 1 }\nf(2)\n", "m3": "y := [1, 2]\n", "m4": "import m1\nz := m1.x + 1\n[z, z]\n"}
+
+
+def error_loops(rng, n):
+    """loop bodies that catch errors raised in the middle of expressions (operands pending in the failing frame), call
+    functions that fail at several depths, and import modules: run 3 and 3000 times"""
+    fails = ["[1][5]", "{}[\"k\"]", "1 / 0", "nil()", "error(\"boom\")", "deep(3)", "xs[9]"]
+    out = []
+    for _ in range(n):
+        f = rng.choice(fails)
+        pend = rng.choice(["1 + %s", "[1, 2, %s]", "t(1, %s)", "{\"a\": 1, \"b\": %s}", "xs[0] + (2 * %s)", "%s", "[t(1, 2), [3, %s]]"]) % f
+        catch = rng.choice(["try(func() { x := %s }, 1)", "acc += try(func() { return %s }, 1)", "try(func() { %s }, func(e) { return 2 })",
+                            "v := try(func() { return %s }, func(e) { return [1][7] }, 5)", "try(func() { t(0, %s) })",
+                            "try(func() { for j := 0; j < 2; j++ { x := %s } }, 0)",
+                            "try(func() { switch 1 { case 1: x := %s } }, 0)"]) % pend
+        extra = rng.choice(["", "", "; acc++", "; import m1", "; import m2; acc += m2.f(1)", "; import m4", "; xs[0] = acc"])
+        form = rng.below(3)
+        body = catch + extra
+        if form == 0:
+            loop = "for i := 0; i < @@N@@; i++ { " + body + " }"
+        elif form == 1:
+            loop = "for i := range @@N@@ { " + body + " }"
+        else:
+            loop = "func once() { " + body + " }\nfor i := 0; i < @@N@@; i++ { once() }"
+        pre = ["func t(k, v) { return v }", "func deep(n) { if n == 0 { return 1 + [1][5] }; return 1 + deep(n - 1) }", "acc := 0", "xs := [1, 2, 3]"]
+        if rng.chance(1, 4):
+            pre.append(rng.choice(["import m1", "import m2", "import m3", "import m4\nimport m1"]))
+        out.append("\n".join(pre) + "\n" + loop + "\nacc")
+    return out
+
+
 def run(res):
     tier = res.tier
     nprog = 3000 if tier == "quick" else 60000
@@ -96,7 +127,7 @@ def run(res):
     srcs = []
     stats = {}
     for i in range(nprog):
-        g = gen.Gen(rng, budget=45)
+        g = gen.Gen(rng, budget=45, features=["defer"] if i % 4 == 0 else [])
         srcs.append(g.program())
         for k, v in g.stats.items():
             stats[k] = stats.get(k, 0) + v
@@ -153,14 +184,46 @@ def run(res):
         loops = loop_programs(rng, nloop)
         small = [p.replace("@@N@@", "3") for p in loops]
         big = [p.replace("@@N@@", "3000") for p in loops]
+        # error-catching and importing loops, with the final stack pointer
+        moddir = os.path.join(work, "mods")
+        os.makedirs(moddir, exist_ok=True)
+        for name, text in MODULES.items():
+            with open(os.path.join(moddir, name + ".risor"), "w") as mf:
+                mf.write(text)
+        eloops = error_loops(rng, nloop)
+
+        def outcome_run(sources):
+            shards = [sources[k::nsh] for k in range(nsh)]
+
+            def one(k):
+                if not shards[k]:
+                    return []
+                inp = "\n".join(x.encode("utf-8", "surrogateescape").hex() for x in shards[k]) + "\n"
+                return subprocess.run([c04obs, "outcome", moddir], input=inp.encode(), stdout=subprocess.PIPE).stdout.decode("utf-8", "replace").splitlines()
+            with ThreadPoolExecutor(max_workers=nsh) as ex2:
+                ps = list(ex2.map(one, range(nsh)))
+            outl = [""] * len(sources)
+            for k in range(nsh):
+                for j, l in enumerate(ps[k]):
+                    outl[k + j * nsh] = l
+            return outl
+        e_small = outcome_run([p.replace("@@N@@", "3") for p in eloops])
+        e_big = outcome_run([p.replace("@@N@@", "3000") for p in eloops])
+        res.eloops = (eloops, e_small, e_big)
         st_small = core.stages(small, tools, os.path.join(work, "ls"), want=("eval",))
         st_big = core.stages(big, tools, os.path.join(work, "lb"), want=("eval",))
-        _decide(res, allsrc, len(witnesses), st, cert, trace, loops, st_small, st_big, stats, proved)
+        def scale_eval(sources):
+            """the whole program as the body of a loop, run 3 and 3000 times: [(outcome_3, outcome_3000)]"""
+            wrap = ["for zq_i := 0; zq_i < @@N@@; zq_i++ {\n" + s0 + "\n}" for s0 in sources]
+            a = core.stages([w.replace("@@N@@", "3") for w in wrap], tools, os.path.join(work, "ss"), want=("eval",))["eval_go"]
+            b = core.stages([w.replace("@@N@@", "3000") for w in wrap], tools, os.path.join(work, "sb"), want=("eval",))["eval_go"]
+            return [(w.replace("@@N@@", "3000"), x, y) for w, x, y in zip(wrap, a, b)]
+        _decide(res, allsrc, len(witnesses), st, cert, trace, loops, st_small, st_big, stats, proved, scale_eval)
     finally:
         shutil.rmtree(work, ignore_errors=True)
 
 
-def _decide(res, allsrc, nwit, st, cert, trace, loops, st_small, st_big, stats, proved):
+def _decide(res, allsrc, nwit, st, cert, trace, loops, st_small, st_big, stats, proved, scale_eval=None):
     cov = res.coverage
     known = C.load_known(PROP)
     certified = rejected = notcompiled = 0
@@ -206,6 +269,10 @@ def _decide(res, allsrc, nwit, st, cert, trace, loops, st_small, st_big, stats, 
         f = t.split("\t")
         outcome = f[0]
         conflict = f[2][len("conflict="):] if len(f) > 2 else ""
+        if outcome == "OK" and ";sp=" in f[1] and f[1].split(";sp=")[1] != "0":
+            oracle.append({"kind": "oracle-violation", "stage": "final stack pointer of the real VM", "source": src,
+                           "why": "a finished evaluation left %s values under its result" % f[1].split(";sp=")[1]})
+            continue
         if conflict:
             oracle.append({"kind": "oracle-violation", "stage": "trace of the real VM", "source": src,
                            "why": "the same instruction was reached with two different relative stack heights: " + conflict})
@@ -238,17 +305,36 @@ def _decide(res, allsrc, nwit, st, cert, trace, loops, st_small, st_big, stats, 
             oracle.append({"kind": "oracle-violation", "stage": "scaled loop bound", "source": p.replace("@@N@@", "3000"),
                            "outcome_3_iterations": a[:200], "outcome_3000_iterations": b[:300],
                            "why": "the loop succeeds for 3 iterations and fails for 3000 with a VM fault"})
+    eloops, e_small, e_big = getattr(res, "eloops", ([], [], []))
+    eloop_run = 0
+    for p, a, b in zip(eloops, e_small, e_big):
+        if not a.startswith("OK"):
+            continue
+        eloop_run += 1
+        why = None
+        if not a.endswith("sp=0"):
+            why = "a finished evaluation left values under its result (%s)" % a
+        elif b.startswith("ERR XPanic") or "GOPANIC" in b or not b:
+            why = "the loop succeeds for 3 iterations and fails for 3000 with a VM fault"
+        elif b.startswith("OK") and not b.endswith("sp=0"):
+            why = "a finished evaluation left values under its result (%s)" % b
+        if why:
+            scaled_bad += 1
+            oracle.append({"kind": "oracle-violation", "stage": "error-catching / importing loop", "source": p.replace("@@N@@", "3000"),
+                           "outcome_3_iterations": a[:200], "outcome_3000_iterations": b[:300], "why": why})
+    cov["error_loops"] = {"generated": len(eloops), "run": eloop_run}
     if len(samples) < 8 and loops:
         samples.append({"scaled_loop_program": loops[0].replace("@@N@@", "3000"), "outcome_3": st_small["eval_go"][0][:120],
                         "outcome_3000": st_big["eval_go"][0][:120]})
 
-    cov["evaluations"] = len(allsrc) + 2 * len(loops)
+    cov["evaluations"] = len(allsrc) + 2 * len(loops) + 2 * len(getattr(res, "eloops", ([],))[0])
     cov["distinct_nontrivial"] = len(distinct_codes)
     cov["rule"] = ("seeded grammar-directed programs (every loop form x switch x if x break/continue/return x expression "
                    "contexts) plus the harvested corpus; each is compiled by the real compiler, every code object is run "
                    "through the extracted proved-sound certificate checker (all control paths), executed on the real VM with "
                    "the verif trace hook (observed (code, ip, height) must equal the certified label), and loop bodies are run "
-                   "with bounds 3 and 3000 (> stack capacity 1024). Non-trivial = distinct compiled programs.")
+                   "with bounds 3 and 3000 (> stack capacity 1024); loops that catch errors raised under pending operands (try), fail at several call "
+                   "depths and import modules are run the same way, and every successful run must end with exactly its result on the stack. Non-trivial = distinct compiled programs.")
     cov["samples"] = samples
     cov["programs_certified"] = certified
     cov["programs_rejected"] = rejected
@@ -272,10 +358,29 @@ def _decide(res, allsrc, nwit, st, cert, trace, loops, st_small, st_big, stats, 
                        "search": "%d programs certified and traced, %d scaled loops: no failing input" % (certified, scaled_run)},
                       nofail=True, tag="proof")
         return
+    if tie_bad and scale_eval:
+        # search for a failing input: where the real VM's height at a pc differs from the height every static path assigns,
+        # repeat the whole program as a loop body - a leak of one slot per iteration overflows the 1024-slot stack
+        cand = []
+        for tb in tie_bad:
+            if tb.get("source") and tb["source"] not in cand:
+                cand.append(tb["source"])
+        found = []
+        for wsrc, a, b in scale_eval(cand[:40]):
+            if a.startswith("OK") and (b.startswith("ERR XPanic") or "GOPANIC" in b):
+                found.append({"kind": "oracle-violation", "stage": "program repeated as a loop body", "source": wsrc,
+                              "outcome_3_iterations": a[:200], "outcome_3000_iterations": b[:300],
+                              "why": "the program succeeds as the body of a 3-iteration loop and fails with a VM fault for 3000 "
+                                     "iterations: iteration count alone produces a stack failure"})
+        for v in found[:10]:
+            v["property"] = PROP
+            res.violation(v)
+        if found:
+            return
     if tie_bad:
         res.violation({"property": PROP, "kind": "correspondence-broken", "first_difference": tie_bad[0],
                        "count": len(tie_bad),
-                       "search": "no pc with two heights observed, no diverging scaled loop: no failing input"},
+                       "search": "no pc with two heights observed, no diverging scaled loop, the differing programs repeated 3000 times do not fail: no failing input"},
                       nofail=True, tag="corr")
 
 
